@@ -181,6 +181,27 @@ func ncErrorReply(id, style string) string {
 </rpc-error>
 <ok/>
 </rpc-reply>`, id)
+	case "warning+error", "error+warning":
+		// a reply that carries a warning and an error: the operation failed
+		w := `<rpc-error>
+<error-type>application</error-type>
+<error-tag>operation-failed</error-tag>
+<error-severity>warning</error-severity>
+<error-message>scripted warning</error-message>
+</rpc-error>`
+		e := `<rpc-error>
+<error-type>application</error-type>
+<error-tag>operation-failed</error-tag>
+<error-severity>error</error-severity>
+<error-message>scripted failure</error-message>
+</rpc-error>`
+		body := w + "\n" + e
+		if style == "error+warning" {
+			body = e + "\n" + w
+		}
+		return fmt.Sprintf(`<rpc-reply xmlns="urn:ietf:params:xml:ns:netconf:base:1.0" message-id="%s">
+%s
+</rpc-reply>`, id, body)
 	}
 	return ""
 }
